@@ -483,7 +483,7 @@ def run_job(job, seed=0, replay_dir=None):
     t0 = time.time()
     res = {
         "job": job.name, "prop": job.prop, "params": jsonable(job.params()),
-        "paths": 0, "decisions": 0, "queries": 0, "solver_time_s": 0.0,
+        "paths": 0, "decisions": 0, "merges": 0, "queries": 0, "solver_time_s": 0.0,
         "obligations": 0, "discharged": 0, "witnesses_validated": 0, "witnesses_skipped": 0,
         "violations": [], "inconclusive": [], "mismatches": [], "samples": [], "known_hits": [],
         "canary": job.expect_canary_sat,
@@ -655,6 +655,7 @@ def run_job(job, seed=0, replay_dir=None):
     except Exception as e:
         res["inconclusive"].append(f"harness error: {e!r}\n{traceback.format_exc()[-1500:]}")
     res["decisions"] = ex.n_decisions
+    res["merges"] = ex.n_merges
     res["queries"] = ex.n_queries
     res["solver_time_s"] = round(ex.solver_time, 3)
     res["files"] = loader.files
